@@ -342,6 +342,57 @@ func ruleR37(p *Prog) []Ob {
 			}
 			return false
 		}
+		// what a finder returns with success is the set it built under its own bound (or nothing)
+		{
+			ob := mk("returns-own-set", p.posStr(fn.Pos()))
+			var bad []string
+			for _, rt := range returnsOf(fn) {
+				if len(rt.Results) != 2 || p.ErrAtomsCached().isFailureReturn(fn, rt) {
+					continue
+				}
+				v := canon(returnOperand(rt, 0))
+				switch x := v.(type) {
+				case *ssa.MakeMap:
+					if x != f.result {
+						// an empty set made on the spot is "nothing"
+						filled := false
+						for _, ref := range *x.Referrers() {
+							if _, ok := ref.(*ssa.MapUpdate); ok {
+								filled = true
+							}
+						}
+						if filled {
+							bad = append(bad, p.at(rt)+": a set other than the one built by the scan is returned")
+						}
+					}
+				case *ssa.Const:
+				case *ssa.Extract:
+					if c, ok := x.Tuple.(*ssa.Call); ok {
+						bad = append(bad, p.at(rt)+": the result of "+calleeName(c.Common())+" is returned: what it selected was not tested against this finder's bound")
+					}
+				default:
+					bad = append(bad, p.at(rt)+": returns "+v.String())
+				}
+			}
+			// the scan does not end because of how much it has selected already
+			for _, hb := range fn.Blocks {
+				if iff, ok := terminator(hb).(*ssa.If); ok {
+					if x, y, _, ok := relCond(iff.Cond); ok {
+						for _, sde := range []ssa.Value{x, y} {
+							if lc, ok := stripConv(sde).(*ssa.Call); ok && isBuiltinCall(lc.Common(), "len") && canon(lc.Call.Args[0]) == ssa.Value(f.result) {
+								bad = append(bad, p.at(iff)+": a branch depends on the size of the set selected so far: the scan stops short of its bound on a big log")
+							}
+						}
+					}
+				}
+			}
+			if len(bad) > 0 {
+				ob.Status, ob.Msg, ob.Path = Violated, "the finder hands on a selection it did not make under its own bound", bad
+			} else {
+				ob.Status, ob.Msg = Discharged, "every success return hands back the set built by the scan (or nothing)"
+			}
+			obs = append(obs, ob)
+		}
 		// cut-off ends the scan: once a message newer than the cut-off is met nothing further is looked
 		// at (what is selected is a prefix, and no later message of a skipped key is taken for its first)
 		if timeParam != nil {
@@ -737,3 +788,7 @@ func (p *Prog) dominatedByNilErr(ea *ErrAtoms, errV ssa.Value, b *ssa.BasicBlock
 	}
 	return false
 }
+
+// dominatedByNilReturn: placeholder for returns whose error operand is not a literal nil; such returns
+// are failure returns for the purpose of the finder rules.
+func (p *Prog) dominatedByNilReturn(rt *ssa.Return) bool { return false }
